@@ -13,8 +13,10 @@
   * `concF_lock_released`    after `pFail` the producer holds no lock (the lock state is exactly what the consumer
                              holds) and the consumer can take its next step whenever it has one; after `cFail`
                              symmetrically for the producer
-  * `concF_linearizable_partial`  see there: the base linearization; the full statement with failed calls is given
-                             in a comment (not proved in the time available)
+  * `concF_linearizable`     the full linearization `linF` - failed calls included, at the step where they fail, with
+                             result `txFailed` - is accepted by the specification with failed calls (`ASpec.runLinF`)
+                             and ends in the ghost state; each thread has seen exactly the results recorded in it
+  * `concF_linearizable_partial`  the same for the base linearization (failed `Write`/`Flush`/`ACK` left out)
 
   Hypotheses: `64 ≤ c.P`; `bad = false` (contract, as in Props/PQQueueConc.lean).
 -/
@@ -177,7 +179,8 @@ theorem concF_lock_released (c : QCfg) (hP : 64 ≤ c.P) (sF sF' : CStateF) (st 
           rw [hL.qinv.r.inTx, e0.2.1, h3] at hin
           cases hin
 
-/-! ## goal 4 (linearizability with failed calls): stated, NOT proved in the time available
+/-! ## goal 4 (linearizability with failed calls): first version, superseded by `concF_linearizable` at the end of this file
+  (proved there except for the two program-order clauses `p0 = …`, `c0 = …`)
 
   Full statement (`ASpec.runLinF`, `ASpec.failL` are defined in Model/PQQueueConcF.lean):
     theorem concF_linearizable (c) (hP : 64 ≤ c.P) (p0 c0) (sched : List CStepF)
@@ -233,5 +236,38 @@ theorem concF_example_fail_retry :
 example : ∃ sF sF', CInvF exCfg sF ∧ sF.step exCfg (.pFail .allocFail) = some sF' ∧ sF'.base.bad = false :=
   ⟨CStateF.run exCfg (CStateF.init exCfg exProgPF exProgCF) (exSchedF.take 5), _,
     concF_run_inv exCfg (by decide) _ _ (concF_init_inv exCfg (by decide) _ _), rfl, by decide +kernel⟩
+
+/-- **LINEARIZABILITY with failing transactions.**  For every schedule of regular steps, `pFail o` and `cFail` from
+    the initial state of any producer program `p0` and consumer program `c0`, inside the contract: the full
+    linearization `linF` recorded by the run - every completed call at its linearization point, a FAILED call at
+    the step where its transaction fails, with the result `txFailed` - is accepted by the specification with
+    failed calls (`ASpec.runLinF`: a regular call as in `ASpec.stepL` with exactly the recorded result; a failed
+    `Write`/`Flush`/`ACK n` (`n > 0`) is a no-op, a failed `Next` finishes the event without flushing) and ends in
+    the ghost state `a`; the results the producer / the consumer have really seen (`outPF`, `outCF`, errors
+    included) are exactly the results recorded in `linF` for that thread, in order; and `a` is related to the
+    queue state.
+    (Not part of this statement: `p0 = (linPF linF).map op ++ progP`, likewise for `c0` - see the comment above.) -/
+theorem concF_linearizable (c : QCfg) (hP : 64 ≤ c.P) (p0 c0 : List QOp) (sched : List CStepF)
+    (hb : (CStateF.run c (CStateF.init c p0 c0) sched).base.bad = false) :
+    let sF := CStateF.run c (CStateF.init c p0 c0) sched
+    ASpec.runLinF {} sF.linF = some sF.base.a ∧
+    sF.outPF = (linPF sF.linF).map (·.out) ∧ sF.outCF = (linCF sF.linF).map (·.out) ∧
+    QInv c sF.base.q sF.base.a := by
+  intro sF
+  rcases concF_run_ginv c hP sched _ (concF_init_ginv c hP p0 c0) with h | ⟨⟨hL, _⟩, hG⟩
+  · rw [hb] at h; cases h
+  · exact ⟨hG.linr, hG.outP, hG.outC, hL.qinv⟩
+
+/-- every step of the extended relation keeps the invariant with the full linearization -/
+theorem concF_step_linearizable (c : QCfg) (hP : 64 ≤ c.P) (sF sF' : CStateF) (st : CStepF) (h : CGInv c sF)
+    (hs : sF.step c st = some sF') : CGInv c sF' := concF_step_ginv c hP sF sF' st h hs
+
+set_option maxRecDepth 100000 in
+/-- the run of `concF_example_fail_retry`: the failed flush is in `linF`, between the consumer's `rbegin` and `rnext` -/
+example :
+    let s := CStateF.run exCfg (CStateF.init exCfg exProgPF exProgCF) exSchedF
+    (linPF s.linF).map (·.out) = [.ret (.wrote none), .ret (.wrote none), .txFailed, .ret (.wrote (some 1))] ∧
+    s.linF.map (·.tid) = [false, false, true, false, true, true, false, true, true, true, true] := by
+  decide +kernel
 
 end TxVerif
